@@ -813,7 +813,11 @@ func (e *Engine) exec(st *State, in ssa.Instruction) ([]*State, []Path) {
 		st.env[x] = AV{Kind: KTuple, Elems: []AV{{Kind: KAtom, Sym: "ok:" + n}, e.typed(st, "k:"+n, tt.At(1).Type()), e.typed(st, "v:"+n, tt.At(2).Type())}}
 	case *ssa.Call:
 		return e.call(st, x)
-	case *ssa.Defer, *ssa.Go, *ssa.Select, *ssa.Send, *ssa.RunDefers:
+	case *ssa.Defer:
+		e.deferCall(st, x)
+	case *ssa.RunDefers:
+		return e.runDefers(st, x)
+	case *ssa.Go, *ssa.Select, *ssa.Send:
 		st.unsupported = fmt.Sprintf("%T outside the fragment", in)
 	case *ssa.DebugRef:
 	default:
@@ -1511,46 +1515,9 @@ func (e *Engine) call(st *State, x *ssa.Call) ([]*State, []Path) {
 	inlinable := callee != nil && callee.Blocks != nil && e.w.Inlinable(callee) && !e.NoInline[callee] &&
 		len(e.stack) < e.MaxDepth && !e.onStack(callee) && len(callee.FreeVars) == len(binds)
 	if inlinable {
-		sub := st.clone()
-		sub.depth++
-		for i, fvv := range callee.FreeVars {
-			sub.env[fvv] = binds[i]
-		}
-		nEvents := len(sub.events)
-		sub.events = append(sub.events, Event{Kind: "enter", Callee: callee.String(), Method: callee.Name(), Args: args, Instr: x, Fn: x.Parent(), Static: callee, Depth: len(e.stack) - 1})
-		paths := e.Run(callee, sub, args)
-		ok := e.Err == nil
-		for _, p := range paths {
-			if p.Cut != nil || p.Stop != nil {
-				ok = false
-			}
-			if p.Loop != nil && !e.InlineLoops {
-				ok = false
-			}
-		}
-		if ok {
-			var next []*State
-			var done []Path
-			for _, p := range paths {
-				if p.Panic != nil || p.Loop != nil {
-					done = append(done, p)
-					continue
-				}
-				ns := p.St
-				ns.depth--
-				ns.events = append(ns.events, Event{Kind: "leave", Callee: callee.String(), Method: callee.Name(), Args: p.Rets, Instr: x, Fn: x.Parent(), Static: callee, Depth: len(e.stack) - 1})
-				switch len(p.Rets) {
-				case 0:
-				case 1:
-					ns.env[x] = p.Rets[0]
-				default:
-					ns.env[x] = AV{Kind: KTuple, Elems: p.Rets}
-				}
-				next = append(next, ns)
-			}
+		if next, done, ok := e.inlineCall(st, x, x, callee, binds, args); ok {
 			return next, done
 		}
-		_ = nEvents
 		if e.Err != nil {
 			return nil, nil
 		}
@@ -1562,6 +1529,148 @@ func (e *Engine) call(st *State, x *ssa.Call) ([]*State, []Path) {
 	e.boundMethod = ""
 	st.env[x] = res
 	return []*State{st}, nil
+}
+
+// inlineCall runs callee from a copy of st with the given arguments and
+// closure bindings and hands back the states at its returns (result bound to
+// key when key is not nil). ok=false: the callee could not be followed to its
+// end (cut paths, generalised loops when those stay opaque) — the caller
+// treats the call as opaque.
+func (e *Engine) inlineCall(st *State, x ssa.Instruction, key ssa.Value, callee *ssa.Function, binds, args []AV) ([]*State, []Path, bool) {
+	sub := st.clone()
+	sub.depth++
+	for i, fvv := range callee.FreeVars {
+		sub.env[fvv] = binds[i]
+	}
+	sub.events = append(sub.events, Event{Kind: "enter", Callee: callee.String(), Method: callee.Name(), Args: args, Instr: x, Fn: x.Parent(), Static: callee, Depth: len(e.stack) - 1})
+	paths := e.Run(callee, sub, args)
+	ok := e.Err == nil
+	for _, p := range paths {
+		if p.Cut != nil || p.Stop != nil {
+			ok = false
+		}
+		if p.Loop != nil && !e.InlineLoops {
+			ok = false
+		}
+	}
+	if !ok {
+		return nil, nil, false
+	}
+	var next []*State
+	var done []Path
+	for _, p := range paths {
+		if p.Panic != nil || p.Loop != nil {
+			done = append(done, p)
+			continue
+		}
+		ns := p.St
+		ns.depth--
+		ns.events = append(ns.events, Event{Kind: "leave", Callee: callee.String(), Method: callee.Name(), Args: p.Rets, Instr: x, Fn: x.Parent(), Static: callee, Depth: len(e.stack) - 1})
+		if key != nil {
+			switch len(p.Rets) {
+			case 0:
+			case 1:
+				ns.env[key] = p.Rets[0]
+			default:
+				ns.env[key] = AV{Kind: KTuple, Elems: p.Rets}
+			}
+		}
+		next = append(next, ns)
+	}
+	return next, done, true
+}
+
+// deferRec: a deferred call, with function value and arguments evaluated when
+// the defer statement ran.
+type deferRec struct {
+	frame  *ssa.Function
+	depth  int
+	instr  *ssa.Defer
+	callee *ssa.Function
+	binds  []AV
+	args   []AV
+}
+
+// deferCall records a defer statement. Only calls of in-repo functions and
+// closures are followed (at RunDefers); anything else is outside the fragment.
+func (e *Engine) deferCall(st *State, x *ssa.Defer) {
+	c := x.Common()
+	rec := deferRec{frame: x.Parent(), depth: st.depth, instr: x}
+	switch {
+	case c.IsInvoke():
+		st.unsupported = "deferred interface method call outside the fragment"
+		return
+	case c.StaticCallee() != nil:
+		rec.callee = c.StaticCallee()
+		if mc, ok := c.Value.(*ssa.MakeClosure); ok {
+			if fv := e.eval(st, mc); fv.Kind == KFunc {
+				rec.binds = fv.Elems
+			}
+		}
+	default:
+		if fv := e.eval(st, c.Value); fv.Kind == KFunc && fv.Fn != nil {
+			rec.callee, rec.binds = fv.Fn, fv.Elems
+		}
+	}
+	if rec.callee == nil || rec.callee.Blocks == nil || !e.w.Inlinable(rec.callee) || len(rec.callee.FreeVars) != len(rec.binds) {
+		st.unsupported = "deferred call of a function that is not followed (" + calleeName(c) + ")"
+		return
+	}
+	for _, a := range c.Args {
+		rec.args = append(rec.args, e.eval(st, a))
+	}
+	st.defers = append(st.defers, rec)
+}
+
+// runDefers executes, last first, the calls deferred by the current frame.
+func (e *Engine) runDefers(st *State, x *ssa.RunDefers) ([]*State, []Path) {
+	states := []*State{st}
+	var done []Path
+	for {
+		// the innermost pending record of this frame (all states share the
+		// same defer stack shape up to here: they descend from one state)
+		idx := -1
+		for i := len(states[0].defers) - 1; i >= 0; i-- {
+			r := states[0].defers[i]
+			if r.frame == x.Parent() && r.depth == states[0].depth {
+				idx = i
+				break
+			}
+		}
+		if idx < 0 {
+			return states, done
+		}
+		var next []*State
+		for _, s := range states {
+			if idx >= len(s.defers) {
+				s.unsupported = "defer stacks diverged"
+				next = append(next, s)
+				continue
+			}
+			rec := s.defers[idx]
+			s.defers = append(append([]deferRec(nil), s.defers[:idx]...), s.defers[idx+1:]...)
+			if len(e.stack) >= e.MaxDepth || e.onStack(rec.callee) {
+				s.unsupported = "deferred call too deep to follow"
+				next = append(next, s)
+				continue
+			}
+			ns, dn, ok := e.inlineCall(s, rec.instr, nil, rec.callee, rec.binds, rec.args)
+			if !ok {
+				if e.Err != nil {
+					return nil, nil
+				}
+				s.unsupported = "deferred call could not be followed to its end (" + rec.callee.String() + ")"
+				next = append(next, s)
+				continue
+			}
+			next = append(next, ns...)
+			done = append(done, dn...)
+		}
+		if len(next) == 0 {
+			return nil, done
+		}
+		states = next
+	}
 }
 
 // oracleCallee: the callee of the dynamic call the engine is currently asking
@@ -1832,6 +1941,17 @@ func (e *Engine) builtin(st *State, x *ssa.Call, b *ssa.Builtin) AV {
 				return AV{Kind: KSeq, Elems: elems, Src: x}
 			case KSeq:
 				return AV{Kind: KSeq, Elems: append(append([]AV(nil), base.Elems...), elems...), Src: x}
+			case KSliceOf:
+				// a slice literal (len == cap): the result is a new sequence of its
+				// elements followed by the appended ones
+				if base.N <= 16 && isLocal(base.Loc) {
+					et := x.Type().Underlying().(*types.Slice).Elem()
+					var pre []AV
+					for i := 0; i < base.N; i++ {
+						pre = append(pre, e.load(st, locJoin(ensureSel(base.Loc), fmt.Sprintf("[%d]", i)), et))
+					}
+					return AV{Kind: KSeq, Elems: append(pre, elems...), Src: x}
+				}
 			case KSym:
 				// a fresh make([]T, 0, cap): an empty sequence whatever its capacity
 				if len(elems) > 0 && strings.HasPrefix(base.Sym, "makeslice(") && base.Inner != nil && base.Inner.Kind == KInt && base.Inner.K == 0 {
